@@ -84,6 +84,11 @@ def strategy_(draw, tier):
         # counting the lines of a 5 GB sparse file legitimately takes longer than the CPU watchdog
         spec.pop("huge1", None)
         spec.pop("huge2", None)
+    if shape == "attr" and w in ("none", "atom") and draw(st.sampled_from(range(3))) == 0:
+        # aggregate a column that is empty for some matching entries
+        spec.pop("huge1", None)
+        spec.pop("huge2", None)
+        aggs = aggs + [{"f": f, "spell": f, "inner": "line_count", "upper": False} for f in draw(st.lists(st.sampled_from(["avg", "sum", "count", "max", "min"]), min_size=1, max_size=3, unique=True))]
     return {"tree": spec, "where": where, "aggs": aggs,
             "depth1": draw(st.sampled_from([False, False, True]))}
 
@@ -171,6 +176,9 @@ def inner_values(out, base, tail, inners, tag):
     for j, e in enumerate(exprs):
         col = []
         for r in rows:
+            if r[1 + j] == "":
+                col.append(None)        # no value for this entry (e.g. line_count of a directory)
+                continue
             try:
                 col.append(int(r[1 + j]))
             except ValueError:
@@ -214,16 +222,30 @@ def check(case):
             v = list(range(n)) if a["inner"] == "*" else vals.get(a["inner"])
             if v is None:
                 continue
+            missing = any(x is None for x in v)
+            present = [x for x in v if x is not None]
             if a["f"] == "count":
                 ref = n
-            else:
+            elif not missing:
                 ref = reference(a["f"], v)
+            elif a["f"] == "sum":
+                ref = sum(present)
+            elif a["f"] == "avg" and n:
+                # the statement: AVG equals SUM divided by COUNT - entries without a value add nothing to the sum
+                from fractions import Fraction as _F
+                ref = _F(sum(present), n)
+                out.classes.append("avg-with-empty-values")
+            elif a["f"] in ("min", "max") and present:
+                ref = min(present) if a["f"] == "min" else max(present)
+            else:
+                ref = None        # variance family over a column with missing values: not asserted
+            v = present
             why = compare(a["f"], cell, ref, v)
             if why:
                 out.add("C07/%s/%s" % (a["f"], "n=0" if n == 0 else "n=1" if n == 1 else "n>=2"), query=q, column=agg_text(a),
                         cell=cell, reference=str(float(ref) if isinstance(ref, Fraction) else ref), n=n, why=why,
                         values=v[:12])
-            if n >= 2 and a["inner"] != "*" and sum(v) % n != 0:
+            if n >= 2 and a["inner"] != "*" and v and sum(v) % n != 0:
                 frac = True
             if a["inner"] != "*" and v and sum(v) >= 2 ** 32:
                 out.classes.append("sum>=2^32")
